@@ -105,6 +105,36 @@ def base_stream(S: Streams, label: str, max_frames: int) -> Dict[str, Any]:
     return {"monitored": monitored, "tx_ids": tx_ids, "frames": frames}
 
 
+def long_stream(S: Streams, label: str) -> Dict[str, Any]:
+    """One long transfer (several flow-control blocks, sequence counter wrapping many times), optionally
+    with a short transfer on a second ID in between."""
+    r = S.rng(label)
+    ids = list(c12.ID_POOL)
+    r.shuffle(ids)
+    n_mon = r.choice([1, 1, 2])
+    monitored, tx_ids = ids[:n_mon], ids[n_mon:2 * n_mon]
+    tx_dl = weighted(r, [8, 12, 64], [8, 1, 1])
+    b = tx_dl - 1
+    n = r.choice([1791, 1792, 1793, 1799, 2048, 4095, 4094, (tx_dl - 2) + 255 * b, (tx_dl - 2) + 256 * b,
+                  (tx_dl - 2) + 257 * b, (tx_dl - 2) + 511 * b + 1])
+    n = max(1, min(n, 4095))
+    pad_mode = r.choice(["none", "dlc", "full"])
+    main = [[monitored[0], f.hex(), k, 0] for f, k in W.segment(c12.gen_payload(r, n, 0), tx_dl, pad_mode, 0xCC)]
+    side: List[List[Any]] = []
+    if n_mon > 1:
+        for t in range(r.randint(1, 3)):
+            m = r.choice([3, 7, 8, 20])
+            side += [[monitored[1], f.hex(), k, t] for f, k in W.segment(c12.gen_payload(r, m, 1 + t), 8, "none")]
+    frames = list(main)
+    for fr in side:
+        frames.insert(r.randint(0, len(frames)), fr)
+    # per-ID order of the side stream must be kept: re-sort its frames into the chosen slots
+    slots = [i for i, f in enumerate(frames) if f[0] == (monitored[1] if n_mon > 1 else None)]
+    for i, fr in zip(slots, side):
+        frames[i] = fr
+    return {"monitored": monitored, "tx_ids": tx_ids, "frames": frames}
+
+
 def same_id_next(frames: List[List[Any]], k: int, dist: int = 1) -> Optional[int]:
     fid = frames[k][0]
     j = k
@@ -296,13 +326,19 @@ def gen(rs: int, index: int, tier: str) -> Dict[str, Any]:
         sub = r.random()
         if sub < 0.7:
             mode = "multi"
-            base = base_stream(S, "base", r.choice([12, 24, 60, 150]))
+            if sub < 0.025:
+                mode = "long"
+                base = long_stream(S, "long")
+            else:
+                base = base_stream(S, "base", r.choice([12, 24, 60, 150]))
             frames = [f + ["n"] for f in base["frames"]]
             monitored, tx_ids = base["monitored"], base["tx_ids"]
             rf = S.rng("fault")
             enabled = [k for k in FAULT_KINDS if rf.random() < 0.5] or [rf.choice(FAULT_KINDS)]
             rate = rf.choice([0.02, 0.05, 0.1, 0.25])
             n_f = max(1, int(len(frames) * rate))
+            if mode == "long":
+                n_f = rf.choice([0, 0, 1, 2, 5])
             for _ in range(n_f):
                 kind = rf.choice(enabled)
                 pos = rf.randint(0, max(0, len(frames) - 1))
@@ -364,7 +400,10 @@ def gen(rs: int, index: int, tier: str) -> Dict[str, Any]:
         "faults": faults_applied,
         "entries": entries,
         "padding": re_.choice([0, 8]),
-        "text": {"style": rt.randint(0, 15), "crlf": rt.random() < 0.2, "last_newline": rt.random() < 0.8},
+        "text": {"style": rt.randint(0, 31), "crlf": rt.random() < 0.2, "last_newline": rt.random() < 0.8,
+                 # lines that are not frames of a monitored ID (comments, blank and cut-short lines): [before frame k, text]
+                 "noise": [[rt.randint(0, max(0, len(allf))), rt.choice(c12.TEXT_NOISE)]
+                           for _ in range(rt.choice([0, 0, 1, 2, 4]))]},
     }
 
 
@@ -515,9 +554,18 @@ def run_text_segments(trace: Dict[str, Any], ent: Dict[str, Any], frames: List[T
     eol = "\r\n" if tcfg.get("crlf") else "\n"
     for a, b in zip(bounds, bounds[1:]):
         lines = []
+        noise = sorted((n for n in tcfg.get("noise", []) if a <= n[0] < b or (b == len(frames) and n[0] >= b)),
+                       key=lambda n: n[0])
         for k in range(a, b):
             t = 1700000000.0 + 0.0005 * k
+            for n in noise:
+                if n[0] == k:
+                    lines.append((n[1] + eol, None))
             lines.append((W.render_line(frames[k][0], frames[k][1], metas[k][4], t, tcfg.get("style", 0)) + eol, k))
+        if b == len(frames):
+            for n in noise:
+                if n[0] >= b:
+                    lines.append((n[1] + eol, None))
         if b == len(frames) and lines and not tcfg.get("last_newline", True):
             lines[-1] = (lines[-1][0].rstrip("\r\n"), lines[-1][1])
         res = W.feed_text(lines, ent["kind"], trace["monitored"], trace["tx_ids"], trace.get("padding", 0),
